@@ -43,10 +43,13 @@ def run_mutant(m, known_oids):
         failed, tool, _ = driver.classify(G, res)
         if tool:
             return {'id': m['id'], 'status': 'undecided', 'detail': tool[0][:300]}
-        fo = [o for o in failed if o not in known_oids]
+        hints = [o for o in failed if o not in known_oids and G.obligations[o]['kind'] == 'proof-block']
+        fo = [o for o in failed if o not in known_oids and G.obligations[o]['kind'] != 'proof-block']
         props = sorted({t for o in fo for t in G.obligations[o]['tags']})
         if fo:
             return {'id': m['id'], 'status': 'killed', 'by': fo[:6], 'props': props}
+        if hints:
+            return {'id': m['id'], 'status': 'undecided', 'detail': 'only proof hints fail: %s' % hints[:3]}
         return {'id': m['id'], 'status': 'survived'}
     finally:
         shutil.rmtree(wd, ignore_errors=True)
@@ -102,9 +105,12 @@ def run_seed(sdir, known_oids):
         failed, tool, _ = driver.classify(G, res)
         if tool:
             return {'seed': os.path.basename(sdir), 'status': 'undecided', 'detail': tool[0][:200], 'expected': meta.get('detected_by')}
-        fo = [o for o in failed if o not in known_oids]
+        hints = [o for o in failed if o not in known_oids and G.obligations[o]['kind'] == 'proof-block']
+        fo = [o for o in failed if o not in known_oids and G.obligations[o]['kind'] != 'proof-block']
         props = sorted({t for o in fo for t in G.obligations[o]['tags']})
-        return {'seed': os.path.basename(sdir), 'status': 'alarm' if fo else 'silent', 'props': props, 'expected': meta.get('detected_by'), 'target': meta.get('property')}
+        hprops = sorted({t for o in hints for t in G.obligations[o]['tags']} - set(props))
+        return {'seed': os.path.basename(sdir), 'status': 'alarm' if fo else ('undecided' if hints else 'silent'), 'props': props, 'undecided_props': hprops,
+                'expected': meta.get('detected_by'), 'target': meta.get('property')}
     finally:
         shutil.rmtree(wd, ignore_errors=True)
 
